@@ -9,6 +9,7 @@ import Quanto.Tables
 import Quanto.Generated
 import Proofs.C08.Lemmas
 import Proofs.C08.Flat
+import Proofs.C08.Leaves
 namespace Quanto
 open C08
 
@@ -260,5 +261,16 @@ theorem C08_observation_shared_module_swapped_once :
     let r := quantizeLoop ⟨none, some .qint8, none⟩ t
     r.at? ["0"] = some (.leaf 1 .linear (some ⟨some .qint8, none⟩)) ∧ r.at? ["2"] = some lin := by
   decide
+
+/-! ### T9 — the paths of two different leaves never extend one another
+
+This is the hypothesis of `C10_model_roundtrip_paths` (C10 T8): the key prefixes of the quantized leaves of a
+module tree are independent because of the tree, not by assumption. -/
+
+theorem C08_leaf_paths_prefix_free (t : Mod) (h : t.namesOk = true) (p q : List String) (x m : Mod)
+    (hp : (p, x) ∈ t.named) (hq : (q, m) ∈ t.named) (hx : x.isLeaf = true) (hm : m.isLeaf = true)
+    (hne : p ≠ q) : ¬ p <+: q ∧ ¬ q <+: p :=
+  ⟨fun hpre => hne (leaf_path_not_proper_prefix t h p q x m hp hq hx hpre).symm,
+   fun hpre => hne (leaf_path_not_proper_prefix t h q p m x hq hp hm hpre)⟩
 
 end Quanto
